@@ -330,6 +330,14 @@ func binop(op token.Token, t types.Type, x, y value) value {
 	if r, ok := symBinop(op, t, x, y); ok {
 		return r
 	}
+	if (op == token.EQL || op == token.NEQ) && (hasSym(x) || hasSym(y)) {
+		// composite values (interfaces, structs, arrays) with symbolic content
+		e := eqTerm(t, x, y)
+		if op == token.NEQ {
+			e = tNot(e)
+		}
+		return mkSymBool(workerOfDeep(x, y), e)
+	}
 	switch op {
 	case token.ADD:
 		switch x.(type) {
